@@ -14,3 +14,4 @@ def run(ck):
     glyph.r6_arguments_kept_whole(ck, P)
     glyph.r7_neighbour_in_probe_direction(ck, P)
     glyph.r8_thaw_thresholds(ck, P)
+    glyph.r9_copy_in_source_format_keeps_palette(ck, P)
